@@ -161,6 +161,14 @@ impl<F: Fam> Ctx<F> {
                 }
                 self.after_op(s, &[C01], true)
             }
+            Op::LingerFull { s } => {
+                let s8 = *s;
+                let si = (s8 & 1) as usize;
+                if self.st(si).l() > 0 {
+                    self.do_retain(si, Pred::OnlyMain, None)?;
+                }
+                self.step_inner(&Op::TightShrink { s: s8, over: false })
+            }
             Op::TightShrink { s, over } => {
                 let s = (*s & 1) as usize;
                 let st = self.st(s);
@@ -728,16 +736,21 @@ impl<F: Fam> Ctx<F> {
             return Ok(());
         }
         let mut guard = 0;
+        let mut capped = false;
         loop {
             let st = self.st(s);
             if st.len >= st.cap || guard >= lim {
+                break;
+            }
+            if st.len >= lcap {
+                capped = true;
                 break;
             }
             let kk = self.fresh_key();
             self.do_insert(s, kk, 1, None)?;
             guard += 1;
         }
-        if and_one_more && guard < lim {
+        if and_one_more && guard < lim && !capped {
             let kk = self.fresh_key();
             self.do_insert(s, kk, 2, None)?;
         }
